@@ -67,4 +67,58 @@ def extra_obligations(repo, D, pid):
         if alias or bad or 'projections' in ast.unparse(fi.node):
             out.append(Ob('%s/ownership[a projection list received from outside is never written in place]' % qual, 'ownership', qual, ['C19', 'C06'], [],
                           z3.BoolVal(not bad), fi.span[0], 'unsat', {'syntactic': True, 'why': '; '.join(bad)}))
+    out += shared_state_obligations(repo)
+    return out
+
+
+def shared_state_obligations(repo):
+    """(C19) the result of solve depends only on its arguments: no state survives from one call of solve to the next.  Syntactic, package-wide:
+       (a) no class body binds a mutable object (list / dict / set display or comprehension, or the result of a call) at class level - such an attribute is shared by all instances,
+           hence by successive solves; (b) no function has a mutable default argument (list / dict / set display, or a call) other than a parameter that is never written in
+           place (checked for `projections` above); (c) no `global` / `nonlocal`-to-module statement, and no module-level name bound to a mutable display is mutated by a function."""
+    import ast, z3
+    from pyvc.core import Ob
+    MUT = (ast.List, ast.Dict, ast.Set, ast.ListComp, ast.DictComp, ast.SetComp, ast.Call)
+    out = []
+    for mod, tree in sorted(repo.trees.items()):
+        if mod.startswith('tests') or '/tests/' in mod:
+            continue
+        for node in tree.body:
+            if isinstance(node, ast.ClassDef):
+                bad = []
+                for s_ in node.body:
+                    tg, val = [], None
+                    if isinstance(s_, ast.Assign):
+                        tg, val = s_.targets, s_.value
+                    elif isinstance(s_, ast.AnnAssign) and s_.value is not None:
+                        tg, val = [s_.target], s_.value
+                    if val is not None and isinstance(val, MUT):
+                        bad.append('%s = %s at line %d' % (ast.unparse(tg[0]), ast.unparse(val)[:40], s_.lineno))
+                out.append(Ob('%s/ownership[(C19) no mutable class-level attribute: nothing is shared between the objects of successive solves]' % node.name, 'ownership', node.name,
+                              ['C19'], [], z3.BoolVal(not bad), node.lineno, 'unsat', {'syntactic': True, 'why': '; '.join(bad)}))
+        globs = [n.lineno for n in ast.walk(tree) if isinstance(n, ast.Global)]
+        modmut = {t.id for n in tree.body if isinstance(n, ast.Assign) and isinstance(n.value, (ast.List, ast.Dict, ast.Set)) for t in n.targets if isinstance(t, ast.Name) and t.id != '__all__'}
+        written = []
+        for n in ast.walk(tree):
+            if isinstance(n, (ast.FunctionDef, ast.Lambda)):
+                for m in ast.walk(n):
+                    if isinstance(m, ast.Call) and isinstance(m.func, ast.Attribute) and isinstance(m.func.value, ast.Name) and m.func.value.id in modmut \
+                            and m.func.attr in ('append', 'extend', 'insert', 'pop', 'remove', 'clear', 'update', 'setdefault', 'add', 'sort', 'reverse'):
+                        written.append('%s.%s at line %d' % (m.func.value.id, m.func.attr, m.lineno))
+                    if isinstance(m, (ast.Assign, ast.AugAssign)):
+                        for t in (m.targets if isinstance(m, ast.Assign) else [m.target]):
+                            if isinstance(t, ast.Subscript) and isinstance(t.value, ast.Name) and t.value.id in modmut:
+                                written.append('store into module-level %s at line %d' % (t.value.id, m.lineno))
+        out.append(Ob('%s/ownership[(C19) no module-level state is written by a function (no global statement, no mutation of a module-level container)]' % mod, 'ownership', mod, ['C19'], [],
+                      z3.BoolVal(not globs and not written), 1, 'unsat', {'syntactic': True, 'why': '; '.join(['global at line %d' % g for g in globs] + written)}))
+    for qual, fi in sorted(repo.funcs.items()):
+        a = fi.node.args
+        names = [x.arg for x in a.args]
+        bad = []
+        for nm, dv in list(zip(names[len(names) - len(a.defaults):], a.defaults)) + [(k.arg, d) for k, d in zip(a.kwonlyargs, a.kw_defaults) if d is not None]:
+            if isinstance(dv, MUT) and nm != 'projections':
+                bad.append('%s=%s' % (nm, ast.unparse(dv)[:30]))
+        if a.defaults or a.kw_defaults:
+            out.append(Ob('%s/ownership[(C19) no mutable default argument (other than the never-written projections list)]' % qual, 'ownership', qual, ['C19'], [],
+                          z3.BoolVal(not bad), fi.span[0], 'unsat', {'syntactic': True, 'why': '; '.join(bad)}))
     return out
